@@ -32,3 +32,15 @@ pub assume_specification<T, E>[ Result::<T, E>::unwrap_or ](res: Result<T, E>, d
     ensures r == (if res is Ok { res->Ok_0 } else { default });
 pub assume_specification<T>[ bool::then_some ](b: bool, t: T) -> (r: Option<T>)
     ensures r == (if b { Some(t) } else { None::<T> });
+// Vec / String / slice / integer helpers vstd does not specify (ASSUMED std contracts)
+pub assume_specification<T: Clone>[ <[T]>::to_vec ](s: &[T]) -> (r: Vec<T>)
+    ensures r@.len() == s@.len(), forall|i: int| 0 <= i < s@.len() ==> call_ensures(T::clone, (&s@[i],), #[trigger] r@[i]);
+pub assume_specification[ String::reserve ](s: &mut String, additional: usize)
+    ensures final(s)@ == old(s)@;
+pub uninterp spec fn f64_bits(f: f64) -> u64;
+pub assume_specification[ f64::to_bits ](f: f64) -> (r: u64)
+    ensures r == f64_bits(f);
+pub assume_specification[ usize::is_power_of_two ](a: usize) -> (r: bool)
+    ensures r == (a > 0 && a & ((a - 1) as usize) == 0);
+pub assume_specification[ usize::overflowing_add ](a: usize, b: usize) -> (r: (usize, bool))
+    ensures r.0 as int == (a + b) % (usize::MAX as int + 1), r.1 == (a + b > usize::MAX);
